@@ -42,6 +42,8 @@ type Request struct {
 	LocalAddr string
 	// EnvoyMetadata: gRPC metadata (x-forwarded-for)
 	EnvoyMetadata map[string]string
+	// Chunked: send the body without Content-Length (chunked transfer encoding), HTTP entry points
+	Chunked bool
 }
 
 // Obs is the projected observation.
@@ -182,6 +184,10 @@ func (c *Client) doHTTP(caseID string, r Request) (Obs, error) {
 	var body io.Reader
 	if r.Body != nil {
 		body = bytes.NewReader(r.Body)
+		if r.Chunked {
+			// hiding the reader's type makes net/http send the body with chunked transfer encoding
+			body = struct{ io.Reader }{body}
+		}
 	}
 
 	req, err := http.NewRequest(r.Method, target, body) //nolint:noctx
